@@ -635,8 +635,14 @@ def rule_r3(prog, res) -> None:
                 checked = any(isinstance(ev.expr.func, ast.Attribute) and ev.expr.func.attr == "is_compatible" and isinstance(kwarg(ev.expr, "require"), ast.Constant) and kwarg(ev.expr, "require").value is True for ev in p.calls("is_compatible"))
                 if not checked:
                     for t, pol_, _ in symx.raising_guards(paths, p):
-                        if any(isinstance(x, ast.Compare) and any(isinstance(o, (ast.NotEq, ast.Eq)) for o in x.ops) for x in ast.walk(t)) and symx.mentions(t, lambda y: isinstance(y, ast.Name) and y.id == other_p):
-                            checked = True
+                        # (t, pol_): the decision taken on this (returning) path whose other outcome raises — it must be
+                        # "the operands are equal": `a != b` false, or `a == b` true
+                        for x in ast.walk(t):
+                            if isinstance(x, ast.Compare) and len(x.ops) == 1 and isinstance(x.ops[0], (ast.NotEq, ast.Eq)) and symx.mentions(x, lambda y: isinstance(y, ast.Name) and y.id == other_p):
+                                neg = sum(1 for y in ast.walk(t) if isinstance(y, ast.UnaryOp) and isinstance(y.op, ast.Not) and any(z is x for z in ast.walk(y)))
+                                holds_equal = (isinstance(x.ops[0], ast.Eq)) == (pol_ if neg % 2 == 0 else not pol_)
+                                if holds_equal:
+                                    checked = True
                 if not checked:
                     bad.append(p)
             if bad:
@@ -654,6 +660,10 @@ def rule_r3(prog, res) -> None:
             continue
         k += 1
         res.touch(m)
+        # compatible means compatible in EVERY respect (binning and patches): the partial verdicts are joined by `and`
+        from .common import eq_is_conjunction
+
+        eq_is_conjunction(prog, res, "C17.R3", ci, m)
         cfg = cfg_of(m.node)
         # nested checks must forward `require`, otherwise their False result is returned instead of an exception
         nested = [c for c in calls_in(m) if isinstance(c.func, ast.Attribute) and c.func.attr == "is_compatible"]
@@ -1027,6 +1037,176 @@ def rule_r10(prog, res) -> None:
         raise AnalysisError("C17.R10: Binning.__getitem__ has no returning path")
 
 
+OP_OF = {"__add__": ast.Add, "__sub__": ast.Sub, "__mul__": ast.Mult, "__truediv__": ast.Div, "__iadd__": ast.Add, "__isub__": ast.Sub, "__imul__": ast.Mult}
+
+
+def rule_r12(prog, res) -> None:
+    """the operators compute what they are named after: in `__add__` the members of the operands are combined with `+`,
+    in `__sub__` with `-`, in `__mul__` with `*` (decided on the symbolic return value: every binary operation that
+    joins a member of `self` with `other` / a member of `other` inside the constructor call that builds the result)"""
+    from .. import symx
+
+    n = 0
+    for ci in _containers(prog):
+        for op, want in OP_OF.items():
+            m = ci.methods.get(op)
+            if m is None or len(m.param_names()) < 2:
+                continue
+            me, oth = m.param_names()[:2]
+            res.touch(m)
+            for p in symx.explore(prog, m, inline=symx.inline_private_helpers(prog, public={"is_compatible"})):
+                if p.outcome != "return" or p.value is None:
+                    continue
+                v = symx.strip_wrappers(p.value)
+                if not isinstance(v, ast.Call):
+                    continue
+                joins = []
+                for x in ast.walk(v):
+                    if isinstance(x, ast.BinOp):
+                        l_me = any(isinstance(y, ast.Name) and y.id == me for y in ast.walk(x.left))
+                        r_me = any(isinstance(y, ast.Name) and y.id == me for y in ast.walk(x.right))
+                        l_ot = any(isinstance(y, ast.Name) and y.id == oth for y in ast.walk(x.left))
+                        r_ot = any(isinstance(y, ast.Name) and y.id == oth for y in ast.walk(x.right))
+                        if (l_me and r_ot and not l_ot) or (l_ot and r_me and not r_ot):
+                            joins.append(x)
+                for x in joins:
+                    n += 1
+                    if isinstance(x.op, want):
+                        res.ok("C17.R12", res.site(m, f"{ci.name}.{op} {unparse(x)[:40]}"), f"members combined with {want.__name__}", nontrivial=False)
+                    else:
+                        res.violation("C17.R12", m, p.node or m.node, f"{ci.name}.{op} combines `{unparse(x)[:60]}` with {type(x.op).__name__} instead of {want.__name__}: the operator does not compute what it is named after (a sum of containers does not add their counts / a scaled container is not scaled)", key_extra=f"operator-arith-{ci.name}-{op}")
+    if n < 6:
+        raise AnalysisError(f"C17.R12: only {n} member combinations found in the operators of the containers, minimum 6")
+
+
+def rule_r13(prog, res) -> None:
+    """the size properties name the right axis: `num_patches` of a container that holds arrays is the length of an axis
+    that is NOT the bin axis of that array (the axis typing of R7: first axis of counts / sums of weights = bins), and
+    `num_samples` is the length of the samples axis — a property that reads the bin axis makes every patch loop, zeros()
+    and jackknife run over the number of bins"""
+    n = 0
+    for ci in _containers(prog):
+        shapes = {k: v for k, v in class_shape_invariants(prog, ci).items() if not k.startswith("<param>")}
+        if not shapes:
+            continue
+        for pname, forbidden, wanted in (("num_patches", "num_bins", None), ("num_samples", "num_bins", None)):
+            m = ci.methods.get(pname)
+            if m is None or not m.is_property:
+                continue
+            rets = [r.value for r in walk_no_nested(m.node) if isinstance(r, ast.Return) and r.value is not None]
+            for rv in rets:
+                arr, k = None, None
+                if isinstance(rv, ast.Subscript) and isinstance(rv.value, ast.Attribute) and rv.value.attr == "shape" and isinstance(rv.value.value, ast.Attribute) and isinstance(rv.slice, ast.Constant):
+                    arr, k = rv.value.value.attr, rv.slice.value
+                elif isinstance(rv, ast.Call) and isinstance(rv.func, ast.Name) and rv.func.id == "len" and rv.args and isinstance(rv.args[0], ast.Attribute):
+                    arr, k = rv.args[0].attr, 0
+                if arr is None or arr not in shapes:
+                    continue
+                axes = shapes[arr]
+                n += 1
+                res.touch(m)
+                if not (-len(axes) <= k < len(axes)):
+                    res.violation("C17.R13", m, rv, f"{ci.name}.{pname} reads axis {k} of self.{arr}, which has the axes {axes}", key_extra=f"size-axis-{ci.name}-{pname}")
+                elif axes[k] == forbidden:
+                    res.violation("C17.R13", m, rv, f"{ci.name}.{pname} returns the length of the {axes[k]} axis of self.{arr} (axes {axes}): the number of bins is reported as the number of {pname[4:]}, loops over patches / samples and arrays sized by it cover the wrong range", key_extra=f"size-axis-{ci.name}-{pname}")
+                else:
+                    res.ok("C17.R13", res.site(m, f"{ci.name}.{pname}"), f"length of axis {k} ({axes[k]}) of self.{arr}")
+    if n < 3:
+        raise AnalysisError(f"C17.R13: only {n} size properties typed, minimum 3")
+
+
+NB = 3  # number of bins of the witness binning
+# class -> [(what is wrong, {parameter: shape | {attribute: value}})]; confirmed against the constructors of the pinned
+# tree, frozen here as the reference for any later change (first entry of each list: a valid input, must be accepted)
+CTOR_WITNESSES = {
+    "PatchedCounts": [
+        ("valid", {"counts": (NB, 4, 4)}),
+        ("counts of rank 2", {"counts": (NB, 4)}),
+        ("counts of rank 4", {"counts": (NB, 4, 4, 1)}),
+        ("counts whose first axis is not the number of bins", {"counts": (NB + 1, 4, 4)}),
+        ("counts that are not square in the patch axes", {"counts": (NB, 4, 5)}),
+    ],
+    "PatchedSumWeights": [
+        ("valid", {"sum_weights1": (NB, 4), "sum_weights2": (NB, 4)}),
+        ("sum_weights1 of rank 1", {"sum_weights1": (NB,), "sum_weights2": (NB, 4)}),
+        ("sum_weights2 of rank 1", {"sum_weights1": (NB, 4), "sum_weights2": (NB,)}),
+        ("sums of weights for different numbers of patches", {"sum_weights1": (NB, 4), "sum_weights2": (NB, 5)}),
+        ("sums of weights whose first axis is not the number of bins", {"sum_weights1": (NB + 1, 4), "sum_weights2": (NB + 1, 4)}),
+    ],
+    "NormalisedCounts": [
+        ("valid", {"counts": {"num_patches": 4, "num_bins": NB}, "sum_weights": {"num_patches": 4, "num_bins": NB}}),
+        ("counts and sums of weights for different numbers of patches", {"counts": {"num_patches": 4, "num_bins": NB}, "sum_weights": {"num_patches": 5, "num_bins": NB}}),
+        ("counts and sums of weights for different numbers of bins", {"counts": {"num_patches": 4, "num_bins": NB}, "sum_weights": {"num_patches": 4, "num_bins": NB + 1}}),
+    ],
+    "SampledData": [
+        ("valid", {"data": (NB,), "samples": (7, NB)}),
+        ("data with one value too many", {"data": (NB + 1,), "samples": (7, NB)}),
+        ("two-dimensional data", {"data": (NB, 1), "samples": (7, NB)}),
+        ("samples of rank 1", {"data": (NB,), "samples": (NB,)}),
+        ("samples whose second axis is not the number of bins", {"data": (NB,), "samples": (7, NB + 1)}),
+    ],
+}
+
+
+def rule_r11(prog, res) -> None:
+    """containers reject arrays of the wrong shape: each constructor is confronted with a fixed list of shape witnesses
+    (wrong rank, wrong number of bins, non-square patch axes, operands for different numbers of patches); its raising
+    tests (helpers looked through) are folded for each witness — a valid input must pass all of them, every invalid
+    one must trip at least one.  The list is the set of checks found on the pinned tree, kept as the reference."""
+    n = 0
+    for cname, wits in CTOR_WITNESSES.items():
+        ci = prog.find_class(cname)
+        node = _ctor_node(prog, ci)
+        init = prog.find_method(ci, "__init__")
+        if node is None or init is None:
+            raise AnalysisError(f"C17.R11: constructor of {cname} not found")
+        res.touch(init)
+        guards = [x for x in ast.walk(node) if isinstance(x, ast.If) and any(isinstance(s_, ast.Raise) for s_ in x.body)]
+        # locals of the (expanded) constructor that stand for a parameter: `_h1_counts = counts`, np.asarray(param) …
+        alias = {}
+        for x in ast.walk(node):
+            if isinstance(x, ast.Assign) and len(x.targets) == 1:
+                v = x.value
+                while isinstance(v, ast.Call) and (dotted(v.func) or "").split(".")[-1] in ("asarray", "array", "asanyarray", "astype", "atleast_1d") and (v.args or isinstance(v.func, ast.Attribute)):
+                    v = v.args[0] if v.args and (dotted(v.func) or "").split(".")[-1] != "astype" else v.func.value
+                if isinstance(v, ast.Name):
+                    alias[unparse(x.targets[0])] = v.id
+        for what, shapes in wits:
+            env = {"self.num_bins": NB, "len(self.binning)": NB, "self.binning.num_bins": NB, "len(binning)": NB, "binning.num_bins": NB}
+            for prm, shp in shapes.items():
+                names = [prm, f"self.{prm}"] + [k for k, v in alias.items() if v == prm or alias.get(v) == prm]
+                for nm in names:
+                    if isinstance(shp, dict):
+                        for a_, v_ in shp.items():
+                            env[f"{nm}.{a_}"] = v_
+                    else:
+                        env[f"{nm}.shape"] = tuple(shp)
+                        env[f"{nm}.ndim"] = len(shp)
+                        env[f"len({nm})"] = shp[0]
+                        env[f"{nm}.size"] = int(__import__("math").prod(shp))
+                        for k_, d_ in enumerate(shp):
+                            env[f"{nm}.shape[{k_}]"] = d_
+            fired = []
+            for g in guards:
+                try:
+                    if bool(ceval(g.test, env)):
+                        fired.append(g)
+                except (Unknown, TypeError, IndexError):
+                    continue
+            n += 1
+            if what == "valid":
+                if fired:
+                    res.violation("C17.R11", init, fired[0], f"{cname}(…) rejects a valid input ({ {k: v for k, v in shapes.items()} } for {NB} bins) through `{unparse(fired[0].test)[:60]}`: the check is inverted or looks at the wrong axis, so what it is meant to reject passes", key_extra=f"ctor-rejects-valid-{cname}")
+                    break
+                continue
+            if fired:
+                res.ok("C17.R11", res.site(init, what), f"rejected by `{unparse(fired[0].test)[:50]}`")
+            else:
+                res.violation("C17.R11", init, init.node, f"{cname}(…) accepts {what} ({ {k: v for k, v in shapes.items()} }): none of its {len(guards)} raising checks fires — a container of inconsistent shape is built, selections and sums over it mix bins and patches or fail far from the cause", key_extra=f"ctor-accepts-{cname}-{what[:30]}")
+    if n < 15 and not any(f.rule == "C17.R11" for f in res.findings):
+        raise AnalysisError(f"C17.R11: only {n} witnesses evaluated")
+
+
 RULES = [
     ("C17.R1", rule_r1, QUICK),
     ("C17.R2", rule_r2, QUICK),
@@ -1038,4 +1218,7 @@ RULES = [
     ("C17.R8", rule_r8, QUICK),
     ("C17.R9", rule_r9, QUICK),
     ("C17.R10", rule_r10, QUICK),
+    ("C17.R11", rule_r11, QUICK),
+    ("C17.R12", rule_r12, QUICK),
+    ("C17.R13", rule_r13, QUICK),
 ]
